@@ -23,7 +23,8 @@ from .. import api
 from ..kernels import make_mask
 from .c05 import close, HALFLIFE_NS
 
-KINDS = ["sum", "min_masked", "first_idx", "count", "t_sum", "t_mean", "cumsum", "rolling", "shift", "ema", "groups", "head", "median", "size_slice", "key_count", "var"]
+KINDS = ["sum", "min_masked", "first_idx", "count", "t_sum", "t_mean", "cumsum", "rolling", "shift", "ema", "groups", "head", "median", "size_slice", "key_count", "var",
+         "rolling_ibg", "ema_ibg", "apply_aligned"]
 VALS = [None, Fraction(1), Fraction(2), Fraction(-3), Fraction(1, 2), Fraction(5, 4), Fraction(7)]
 
 
@@ -32,7 +33,10 @@ def make_op(kind, rng, n):
     vals = [rng.choice(VALS) for _ in range(n)]
     bmask = [rng.random() < 0.65 for _ in range(n)]
     idx = [rng.randrange(-n, n) for _ in range(rng.randint(1, n))]
-    return dict(kind=kind, vals=vals, bmask=bmask, idx=idx, n=rng.randint(1, 2), window=rng.randint(1, 3), a=rng.randint(0, max(0, n - 2)))
+    # row labels of this call's values (group-sorted layouts and row-aligned apply label their output with them)
+    la, lb = [100 + 3 * i for i in range(n)], [7 * (n - i) for i in range(n)]
+    row_labels = {"rolling_ibg": la, "ema_ibg": lb}.get(kind, rng.choice([None, la, lb]))      # consecutive calls see different row labels
+    return dict(kind=kind, vals=vals, bmask=bmask, idx=idx, n=rng.randint(1, 2), window=rng.randint(1, 3), a=rng.randint(0, max(0, n - 2)), row_labels=row_labels)
 
 
 def apply_op(gb, op, n):
@@ -60,6 +64,13 @@ def apply_op(gb, op, n):
         return ("rows", gb.shift(v, 1))
     if k == "ema":
         return ("rows", gb.ema(v, alpha=0.5))
+    if k in ("rolling_ibg", "ema_ibg", "apply_aligned"):
+        sv = pd.Series(v, index=op.get("row_labels"), name="v") if op.get("row_labels") is not None else pd.Series(v, name="v")
+        if k == "rolling_ibg":
+            return ("ibg", gb.rolling_sum(sv, op["window"], min_periods=1, index_by_groups=True))
+        if k == "ema_ibg":
+            return ("ibg", gb.ema(sv, alpha=0.5, index_by_groups=True))
+        return ("ibg", gb.apply(sv, np.cumsum))
     if k == "groups":
         return ("groups", gb.groups)
     if k == "head":
@@ -82,6 +93,10 @@ def canon(tagged, kinds):
             res.append((api.index_to_ranks(idx, kinds)[0], tuple(int(i) for i in ix)))
         return res
     vals = api.canon_series(out)
+    if tag == "ibg":
+        # (group label, row label) index: both levels are part of the answer
+        idx = [(api.label_to_rank(t[0], kinds[0]), int(t[1])) for t in out.index.tolist()]
+        return list(zip(idx, vals))
     if tag == "rows":
         return vals
     if tag == "sel":
